@@ -29,3 +29,4 @@ Definition k_flow_process_response : pfun :=
     ] [];
     SReturn (PName "pdu_resp")
   ] |}.
+Definition k_flow_process_response_defaults : list (string * pexp) := [("encrypt_offsets", PNone)].
